@@ -130,7 +130,8 @@ def run_shard(desc):
                 mult = int(np.searchsorted(flat, c + 5e-9) - np.searchsorted(flat, c - 5e-9))
                 case = {"lattice": li, "cell": cell, "sym": sym, "rot": ri, "ring1": r1, "ring2": r2, "h1": list(h1), "h2": list(h2),
                         "seed": seed_of()}
-                for crange in (1e-6, 0.004):
+                for crange in (1e-6, 0.004) + ((0.3,) if (r2 <= 3 and (i1 + i2) % 3 == 0) else ()):
+                    # 0.3: a window wide enough to hold several different angle classes (many candidates, repeats among them)
                     uc.orient(r1, g1, r2, g2, crange=crange)
                     cands = list(uc.UBIlist)
                     cc = dict(case, crange=crange)
